@@ -131,6 +131,8 @@ func extOf(format string, r *Rand) string {
 		return Pick(r, []string{"yaml", "yml", "yaml"})
 	case "props":
 		return "properties"
+	case "base64", "uri":
+		return "txt"
 	}
 	return format
 }
